@@ -88,7 +88,10 @@ def build(spec, optic_cls=None):
     """Build through the public API, surfaces appended in index order."""
     from optiland.optic import Optic
     lens = (optic_cls or Optic)()
-    lens.add_surface(index=0, thickness=fnum(spec['obj_t']), material=make_material(spec.get('obj_n', 'air')))
+    okw = {}
+    if spec.get('obj_radius', 'inf') != 'inf':
+        okw['radius'] = fnum(spec['obj_radius'])        # curved object surface (the field point lies ON it)
+    lens.add_surface(index=0, thickness=fnum(spec['obj_t']), material=make_material(spec.get('obj_n', 'air')), **okw)
     for i, s in enumerate(spec['surfaces'], start=1):
         typ, kw = surface_kwargs(s)
         lens.add_surface(index=i, surface_type=typ, thickness=float(s.get('t', 0.0)),
